@@ -247,6 +247,31 @@ def Mw.isRetry : Mw → Bool
   | .retry _ => true
   | _ => false
 
+/-! ### Retry's own attempt rule, stated on the script of the scripted handler -/
+
+/-- the result the scripted handler gives next, and the script it leaves (the last result repeats) -/
+def headRes : List Res → Res
+  | [] => .ret [] none
+  | r :: _ => r
+def nextScript : List Res → List Res
+  | [] => []
+  | [r] => [r]
+  | _ :: rest => rest
+
+def Res.isErr : Res → Bool
+  | .ret _ (some _) => true
+  | _ => false
+
+/-- attempts made by the retry loop with `rem` retries allowed after the next one -/
+def ownLoop : Nat → List Res → Nat
+  | 0, _ => 1
+  | r + 1, sc => if (headRes sc).isErr then 1 + ownLoop r (nextScript sc) else 1
+
+/-- Retry's own rule: call once; after a failure retry until a call does not fail (success or panic),
+    at most max(MaxRetries, 1) times -/
+def ownAttempts (maxRetries : Nat) (sc : List Res) : Nat :=
+  if (headRes sc).isErr then 1 + ownLoop (maxRetries - 1) (nextScript sc) else 1
+
 /-! ### DelayOnError over a sequence of calls on one message -/
 
 /-- the delay metadata after a call whose handler failed (`true`) or succeeded (`false`) -/
@@ -296,6 +321,14 @@ def validRun (d : Nat) : List Start → Bool
     decide (1 ≤ a.tick) && decide (a.tick * d ≤ a.time) &&
     decide (a.time ≤ b.time) && decide (a.tick < b.tick) && decide (a.time ≤ b.tick * d) &&
     validRun d (b :: rest)
+
+/-- the weaker description that does not assume punctual timers: ticks are consumed in strictly increasing order and
+    none before its nominal time `i·d` (the runtime may deliver a tick late, never early) -/
+def laxRun (d : Nat) : List Start → Bool
+  | [] => true
+  | [a] => decide (1 ≤ a.tick) && decide (a.tick * d ≤ a.time)
+  | a :: b :: rest =>
+    decide (1 ≤ a.tick) && decide (a.tick * d ≤ a.time) && decide (a.tick < b.tick) && laxRun d (b :: rest)
 
 /-- the deterministic run for given request times (when each caller arrives at `<-ticker.C`; callers
     are served in order): the next tick that can be in the slot is the first one fired at or after
